@@ -91,14 +91,14 @@ Qed.
 
 Lemma ex_any6 : xreach_any ex_xobs xs6.
 Proof.
-  assert (A : forall s, xreach ex_xobs s -> xreach_any ex_xobs s).
-  { induction 1.
-    - apply xany_init.
-    - replace s' with (snd (xselect ex_xobs s xkw)) by (rewrite H1; reflexivity). apply xany_step; assumption.
-    - destruct (xselect ex_xobs s xkw) as [oc' s'] eqn:E. cbn [fst snd] in *. subst oc'.
-      rewrite (rejected_untouched _ _ _ _ _ E H1). exact IHxreach. }
   replace xs6 with (snd (xselect ex_xobs xs5 xc6)) by (vm_compute; reflexivity).
-  apply xany_step; [apply A, ex_reach5 | repeat constructor; simpl; intuition discriminate].
+  apply xany_step; [apply xreach_is_any, ex_reach5 | nd].
+Qed.
+
+(* after the failed call, an accepted one: again a state in which all theorems apply *)
+Lemma ex_reach_after_failure : xreach ex_xobs (snd (xselect ex_xobs xs6 [("corrprods"%string, XCore VAuto)])).
+Proof.
+  apply (xreach_ok ex_xobs xs6 [("corrprods"%string, XCore VAuto)]); [exact ex_any6 | nd | vm_compute; reflexivity].
 Qed.
 
 (* the masks along the history *)
